@@ -617,9 +617,6 @@ Lemma acc_step_shape mexp p e a : acc_step mexp p e = Some a ->
   p_name (a_param a) = p_name p /\ a_name a = name_of (a_param a) /\ p_export (a_param a) <> XTrue.
 Proof.
   unfold acc_step.
-  assert (G : forall pk, p_name pk = p_name p -> forall a0,
-    (if p_iscmd (post mexp pk) then forall es, a0 = {| a_param := post mexp pk; a_errs := es; a_write := None; a_name := name_of (post mexp pk) |} -> True else True) -> True) by auto.
-  clear G.
   assert (S1 : forall pk es0, p_name pk = p_name p ->
      (if p_iscmd (post mexp pk)
       then Some {| a_param := post mexp pk; a_errs := es0; a_write := None; a_name := name_of (post mexp pk) |}
@@ -731,7 +728,8 @@ Proof.
   - intros [a [Ha Hn]]. destruct (Sh a Ha) as [Hna NX]. rewrite Hna in Hn. unfold name_of in Hn.
     destruct (p_export (a_param a)) as [| |s'] eqn:Ex; [destruct Hn|destruct Hn|]. destruct Hn as [Hn|[]]. inversion Hn; subst.
     destruct (map_opt_in finish_param _ _ (a_param a) EF) as [y [Hy Hyin]]; [apply in_map; exact Ha|].
-    destruct (finish_param_export _ _ NX Hy) as [Fx Fn].
+    assert (NX' : p_export (a_param a) <> XTrue) by (rewrite Ex; discriminate).
+    destruct (finish_param_export _ _ NX' Hy) as [Fx Fn].
     destruct (apply_main_keeps (main_unit ps) y) as [M1 [_ [_ [_ [_ [_ M7]]]]]].
     exists (apply_main (main_unit ps) y). split; [apply in_map; exact Hyin|]. split; [congruence|congruence].
   - intros [p' [Hin [Hn Hx]]]. apply in_map_iff in Hin. destruct Hin as [y [Hy Hyin]]. subst p'.
